@@ -43,6 +43,10 @@ chk("C10",
     "Stateless model checking of the real Linter.LintFiles under a controlled scheduler: 6 scenarios (shared local action, caller+callee reusable workflow with AST- vs file-derived interface, sibling and nested repositories with different configurations, messages built from shared slices, broken shared callees, -format) x every subset and argument order of the files x semaphore size {1,2} x all interleavings up to 2 preemptions (thorough 3); oracle: per-file diagnostics equal LintFile alone on a fresh Linter, defects of a shared callee exactly once per run, deep fingerprint of all package-level tables and every Config unchanged (AllWebhookTypes at every scheduling point), no deadlock.",
     "Data races proper are outside a cooperative scheduler's reach: the 'no data races' clause is only supported by the modification monitor plus a separate free-running -race pass, not decided. GOMAXPROCS is subsumed by interleavings under data-race freedom. Scenarios are a fixed catalogue of 6 drivers." + OVERLAY_NOTE,
     "controlled-scheduler stateless DFS with preemption bounding + happens-before state caching, differential oracle")
+chk("C11",
+    "Bounded-exhaustive model checking of the untrusted-input detector: for the 20 documented untrusted paths the full product of segment spellings (.name, .NAME, ['name'], ['Name']; .*, [0], [matrix.i] for * segments) in the bare embedding; all proper prefixes, a trusted sibling per segment, one-segment extensions and an object filter in place of each named segment; canonical and adversarial spellings of every path in 23 embeddings (unary/binary operators either side, parentheses, call arguments, index positions, 2 and 3 chains, sanitising calls nested both ways and next to live chains), all ordered pairs of different paths; each parsed and checked by the real ExprSemanticsChecker and compared with a stateless reference matcher on segment lists (exact set of reported paths per chain); plus 11 script / non-script positions through Linter.Lint.",
+    "A chain is a variable followed by accessors (chains interrupted by operators are not claimed); a non-string index after an object filter is not generated; the path list is appendix D." + OVERLAY_NOTE,
+    "exhaustive enumeration of spellings x embeddings x positions vs stateless reference matcher")
 chk("C12",
     "Complete enumeration of the finite space (table key or no key) x (12 contexts + 5 special functions) x 4 embeddings: every non-exempt scalar value position of the 4 maximal seeds (all 34 keys of the availability table are reached, plus every position governed by no key) gets each name spliced in bare, upper-cased, nested and call-argument form; the real Linter's 'not allowed here' verdict at that position must equal the transcription of GitHub's context-availability table.",
     "The oracle is the transcription of GitHub's table frozen in lib_catalogue.go (cross-read once against the documentation-generated availability.go); which key governs a position comes from the documentation-derived schema; for `jobs` outside workflow_call outputs 'undefined variable' counts as the report." + OVERLAY_NOTE,
